@@ -30,12 +30,25 @@ TRUSTED = ['Model/MetaCascade.v is hand-written; tied on every run: for every re
            'gives the table and the field moves update_summary_section makes (summary.py decides those from names, '
            'types and formula texts, which the model does not carry)',
            'instrumentation points Engine._apply_one_user_action, DocModel.apply_auto_removes, '
-           'SummaryActions.update_summary_section (harness-side wrappers)']
-ASSUMPTIONS = ['cascades not in the model (exercised by the oracle only): ModifyColumn type changes and the conversion of '
-               'Ref columns when their target table is removed, RenameColumn, AddReverseColumn, '
-               'DetachSummaryViewSection, chart/form sections, copies of display columns and rules made when a summary '
-               'table or a card section is created, updates propagated to sister columns of summary tables, '
-               'visibleCol/linkSrc* written directly',
+           'SummaryActions.update_summary_section, SummaryActions._get_or_add_columns (harness-side wrappers)',
+           'harness/mc2v.py + harness/mc_pins.json: the 88 functions the hand-written model follows (useractions.py '
+           'cascades, summary.py, docmodel.py auto-removal and record helpers, Engine.apply_user_actions, ...) are '
+           'pinned by a hash of their AST that ignores comments, docstrings and local names; a changed function makes '
+           'the check BROKEN until the change has been looked at (python -m harness.mc2v [--update])',
+           'harness/mc2v_gen.py (regenerated on every run into coq/gen/MetaCascade_gen.v): the end-of-bundle loop of '
+           'Engine.apply_user_actions (while/if -> gen_auto_fix), SummaryActions._get_or_add_columns (-> gen_goa, '
+           'validated against every observed call), and the statement plans (calls, guards, loops, order; '
+           'doBulkRemoveRecord vs docmodel.remove vs plain doc action) of _removeTableRecords, doRemoveColumns, '
+           '_removeColumnRecords, _removeViewRecords, _removeViewSectionRecords, _doRemoveViewSectionRecords, '
+           '_removeViewSectionFieldRecords, doBulkRemoveRecord, UpdateSummaryViewSection, DetachSummaryViewSection, '
+           'apply_auto_removes; Proofs/MetaCascade_bridge.v proves gen_auto_fix = auto_fix, gen_goa = model_goa '
+           'pointwise (one column handed back per requested column) and each plan equal to the reference plan the '
+           'model was written against (Model/MetaCascadePlanRef.v); the plans fix the SHAPE of the code, the meaning '
+           'of each statement is carried by the hand-written model and the per-bundle tie']
+ASSUMPTIONS = ['actions outside the model (exercised by the oracle only; counted as outside the fragment): AddReverseColumn, '
+               'CopyFromColumn/ConvertFromColumn, columns added with visibleCol/rules/displayCol in their info, on-demand '
+               'tables, name collisions of summary columns in _get_or_add_columns, Ref types naming a table that does '
+               'not exist yet, visibleCol/linkSrc* written directly',
                'update_summary_section enters the model through recorded descriptors (target table, the fields moved and '
                'their new columns, new fields); the model validates them (columns of the target table; the sections '
                'doRemoveColumns regroups are computed by the model, raw sections excluded; fields not moved are '
@@ -50,6 +63,7 @@ ASSUMPTIONS = ['cascades not in the model (exercised by the oracle only): Modify
                'direct AddRecord/UpdateRecord that write arbitrary references into metadata records are outside the '
                'vocabulary (the engine stores them unchecked)']
 TECHNIQUE = ('Coq proof of an inductive invariant over a hand-written executable model of the metadata cascades + '
+             'AST pins on all modelled functions + regenerated deciding pieces with bridging lemmas + '
              'per-bundle tie on real histories (vm_compute) + implementation oracle')
 LEVEL_TEXT = ('Kernel-checked: every modelled user action (tables, columns, views, sections, fields, pages, display and '
               'rule helpers, new summary tables) keeps all metadata references resolvable, the auto-removal loop ends '
@@ -57,7 +71,8 @@ LEVEL_TEXT = ('Kernel-checked: every modelled user action (tables, columns, view
               'back-reference clearing leave no reference to a removed record; RemoveColumn of group-by sources and '
               'UpdateSummaryViewSection included: C09_full is a theorem without side conditions. The witnesses of the '
               'four defects repaired on the way (e0ec788, ae5ee6e, ea10a38, 811c657) are regression examples and scripted histories.')
-LEVEL_NOTE = ('Kernel strength: what summary.py decides from names/types/formulas enters as recorded parameters; '
+LEVEL_NOTE = ('The theorems C09_code_* are stated over the regenerated loop and column list (gen_auto_fix, gen_goa). '
+              'Kernel strength: what summary.py decides from names/types/formulas enters as recorded parameters; '
               'actions outside the model are covered by the oracle only (listed under assumptions).')
 
 META_TABLES = ('_grist_Tables', '_grist_Tables_column', '_grist_Views', '_grist_Views_section',
